@@ -30,14 +30,23 @@ OB_BYTE = "C19/lark_interface.LarkStuff.byte_cfg/accepts-exactly-utf8-encodings"
 OB_NAMES = "C19/lark_interface.LarkStuff._char_cfg/terminal-nonterminal-names-disjoint"
 
 SPOT = 14               # strings per grammar re-evaluated with cfgspec.cfg_weight over BOOL
+STRING_CAP = 4000       # character candidates per grammar (byte candidates: 4x); the length bounds shrink for large alphabets
 CLASS_ESC = re.compile(r"\\[wWdDsS]")
+
+
+def _count_by_bytes(sizes, maxbytes):
+    """Number of strings over characters with the given UTF-8 widths whose encoding has at most maxbytes bytes."""
+    f = [1] + [0] * maxbytes
+    for b in range(1, maxbytes + 1):
+        f[b] = sum(f[b - k] for k in sizes if k <= b)
+    return sum(f)
 
 
 def make_cases(tier, seed, n_random=None):
     import lark
     rng = random.Random(seed)
     quick = tier == "quick"
-    n_random = (120 if quick else 400) if n_random is None else n_random
+    n_random = (120 if quick else 600) if n_random is None else n_random
     L = 4 if quick else 5
     LB = 6 if quick else 8
     cases = []
@@ -56,10 +65,11 @@ def make_cases(tier, seed, n_random=None):
         items.append((f"rand{seed}_{k}", g, sg, cs))
         k += 1
     for i, (name, g, sg, cs) in enumerate(items):
+        sizes = [len(convspec.utf8(ch)) for ch in set(sg)]
+        ml = max(l for l in range(1, L + 1) if l == 1 or len(sizes) ** l <= STRING_CAP)
+        mb = max(b for b in range(1, LB + 1) if b == 1 or _count_by_bytes(sizes, b) <= 4 * STRING_CAP)
         for rec in ("right", "left"):
-            cases.append(dict(name=name, grammar=g, sigma=sg, charset=cs, recursion=rec,
-                              maxlen=min(L, 4) if len(set(sg)) > 5 else L,
-                              maxbytes=min(LB, 5) if sum(1 for ch in set(sg) if ord(ch) < 128) > 4 else LB))
+            cases.append(dict(name=name, grammar=g, sigma=sg, charset=cs, recursion=rec, maxlen=ml, maxbytes=mb))
     return cases
 
 
@@ -266,7 +276,8 @@ def bounded(run):
              f"ß and ﬁ (multi-character case mappings), %ignore with one or two ignored terminals, 1-4 terminals containing 2-,3-,4-byte "
              f"characters, names resembling the internal ones (N0, N1, _bytes0), charset 'core' and custom sets) + seeded random grammars "
              f"(2-4 terminals from a pool, 1-3 rules with nested EBNF operators, optional %ignore); character level: ALL strings of length <= "
-             f"{4 if quick else 5} over the occurring characters plus a foreign one; byte level: byte strings of length <= {6 if quick else 8}: "
+             f"{4 if quick else 5} over the occurring characters plus a foreign one (shorter when that exceeds {STRING_CAP} strings); byte level: "
+             f"byte strings of length <= {6 if quick else 8} (shorter when more than {4 * STRING_CAP} candidate texts fit): "
              f"every string accepted on either side (exhaustive generation over the bytes of the candidate characters plus two foreign bytes), "
              f"the encodings of all character candidates, every truncation / one-byte deletion / foreign-byte substitution and insertion of an "
              f"expected encoding, and all byte strings up to the largest length with <= {dom_conv.BLIND_CAP} strings; oracle: lark's compiled "
@@ -279,7 +290,7 @@ def bounded(run):
              f"non-trivial = the expected language is non-empty within the bound; distinct = (level, grammar, recursion)")
     seeds = (0, 1) if quick else (0, 1, 2, 3)
     run.extra["hash_seeds"] = list(seeds)
-    engine.run_cases(run, "props.C19", "check_case", cases, hash_seeds=seeds, per_case_timeout=150, split=quick)
+    engine.run_cases(run, "props.C19", "check_case", cases, hash_seeds=seeds, per_case_timeout=150 if quick else 400, split=quick)
 
 
 def run(run, only=None):
